@@ -121,6 +121,30 @@ def syntactic(E):
                            'args.extend(options.original_testrunner_args[1:])' in ssrc, props=('C11', 'C03'))
 
 
+ARGS = "runner.options.original_testrunner_args"
+SHUFFLE_INIT = {
+    'property': ['C11'],
+    'params': {'runner': 'Rec[ShuffleInitRunner]'},
+    'self_fields': {'active': 'bool', 'seed': 'Opt[int]', 'runner': 'Any'},
+    'requires': [],
+    'modifies': ['self.active', 'self.seed', ARGS],
+    'ensures': [
+        "self.seed is not None",
+        "implies(old(runner.options.shuffle_seed) is not None, self.seed == old(runner.options.shuffle_seed))",
+        # a generated seed reaches every child process -- -j N or resumed layers alike -- through the arguments they are
+        # re-invoked with (spawn_layer_in_subprocess passes original_testrunner_args[1:]): the seed that is reported
+        # reproduces the order of every layer
+        "implies(old(runner.options.shuffle_seed) is None and runner.options.shuffle and old(%s) is not None,"
+        " len(%s) == old(len(%s)) + 2 and %s[len(%s) - 2] == '--shuffle-seed' and %s[len(%s) - 1] == str_of(self.seed)"
+        " and forall(q, Int, implies(0 <= q and q < old(len(%s)), %s[q] == old(%s)[q])))"
+        % ((ARGS,) * 10),
+    ],
+    'raises': {},
+    'rules': {'super().__init__': 'NOEFFECT'},
+    'expr_rules': {'int(time.time() * 256)': 'fresh:int'},
+}
+
+
 def register(E):
     E.load_sidecar(os.path.join(HERE, 'common.py'))
     E.records['ShuffleRunner'] = {'tests_by_layer_name': 'Dict[Str,Suite]'}
@@ -137,4 +161,9 @@ def register(E):
         "sorted(d.items()) is a permutation of the items (its order by layer name is not needed for the claims proved here)",
     ]
     syntactic(E)
+    E.records['ShuffleInitOptions'] = {'shuffle': 'bool', 'shuffle_seed': 'Opt[int]', 'original_testrunner_args': 'Opt[List[Str]]',
+                                       'processes': 'int', 'resume_layer': 'Opt[Str]'}
+    E.records['ShuffleInitRunner'] = {'options': 'Rec[ShuffleInitOptions]'}
+    E.specfuncs['str_of'] = lambda eng, st, v: eng.uf('str_of', [v.inner if v.__class__.__name__ == 'VOpt' else v], ('obj', 'Str'))
+    E.add_contract('shuffle.Shuffle.__init__', SHUFFLE_INIT)
     E.add_contract('shuffle.Shuffle.global_setup', SHUFFLE)
